@@ -148,15 +148,30 @@ def run_writer(case, ctx):
     if src.get('segyio_structured'):
         return {'nontrivial': False, 'counters': {'skipped_segyio_infers_regular_cube': 1}}
     rate, bs = case['rate'], tuple(case['bs'])
+    extra_fields = None
     if geom == 'numpy':
-        conv.convert_numpy(src['data'], out, rate, bs, ilines=src['ilines'], xlines=src['xlines'], samples=src['samples'])
+        # header dict of the NumPy route: any set of fields, with / without explicit inline and crossline arrays
+        hr = random.Random('nphdr/%s' % case['id'])
+        nI, nX, _ = src['data'].shape
+        hd, extra_fields = {}, {}
+        pool = [k for k in KEYS if k not in (189, 193)]
+        for k in hr.sample([k for k in pool if k < 189], hr.randint(0, 2)) + hr.sample([k for k in pool if k > 193], hr.randint(0, 2)):
+            a = np.array([[hr.randint(-2 ** 31, 2 ** 31 - 1) for _ in range(nX)] for _ in range(nI)], dtype=hr.choice(['int32', 'int64']))
+            hd[int(k)] = a
+            extra_fields[k] = a.astype(np.int64).reshape(-1)
+        if hr.random() < 0.3:
+            hd[189] = np.broadcast_to(np.asarray(src['ilines'])[:, None], (nI, nX)).astype('int32')
+        if hr.random() < 0.3:
+            hd[193] = np.broadcast_to(np.asarray(src['xlines']), (nI, nX)).astype('int64')
+        conv.convert_numpy(src['data'], out, rate, bs, ilines=src['ilines'], xlines=src['xlines'], samples=src['samples'], trace_headers=hd)
     else:
         conv.convert_segy(src['path'], out, rate, bs, reduce_iops=case.get('reduce_iops', False), detection=case['detection'])
     truth = truth_for(src, rate, bs, case['detection'], geom)
     truth['bs'] = conv.resolve_bs(rate, bs)
-    if geom == 'irregular':
-        # zero-extension beyond the grid is what the property states for irregular files
-        pass
+    if extra_fields:
+        truth['fields'].update(extra_fields)
+        # the table names exactly the stored arrays: every supplied field must be backed by its own array, in table order
+        truth['arrays'] = dict(extra_fields)
     bad, sp = conform.check(out, truth, tag='%s:' % geom)
     strata = ['writer:' + geom, 'detection:' + case['detection']]
     if sp is not None:
